@@ -108,6 +108,8 @@ def expected(kind, n, moods, pruned):
 
 def run(ctx):
     model = ctx.model
+    from .. import roles as _roles
+    R = _roles.get(model)
     interp = model.interp
     ctx.rule("R15.pair", "each retirement delete is paired (same transaction, usage DB "
              "configured) with exactly one usage record fed by the side rows selected "
@@ -165,8 +167,8 @@ def run(ctx):
         rec = recs[0]
         rowsrc = None
         for x, _ in flat_events(around):
-            if x["k"] == "call" and any(a[0] == "rows" for a in x["args"]):
-                for a in x["args"]:
+            if x["k"] == "call":
+                for (pn, a) in x.get("argmap", ()):
                     if a[0] == "rows":
                         rowsrc = a
         ok = False
@@ -191,7 +193,7 @@ def run(ctx):
                 seq = sel["binds"]["where_eq"]
                 keyed = seq is not None and set(seq) == {fk} and \
                     (key is None or seq[fk] == key or st.table == "mailboxes"
-                     and e["func"] == "Mailbox.close")
+                     and e["func"] == R.close_op)
                 # selected before the side rows are deleted
                 before_del = True
                 try:
@@ -212,7 +214,7 @@ def run(ctx):
                     why = "the side rows are selected after they were deleted"
         ctx.ob("R15.pair", cons, ok, e, "" if ok else why,
                None if ok else render_path(p.events))
-    ctx.require("R15.pair", nret, 5, "retirement deletes (nameplates/mailboxes)")
+    ctx.require("R15.pair", nret, 2, "retirement deletes (nameplates/mailboxes)")
     # converse: every usage record accompanies a delete
     nrec = 0
     for (p, e, prior, later, loops) in e3mod.walk_transactions(
@@ -248,6 +250,15 @@ def run(ctx):
                                     "of its arguments" % fi.qualname)
         combos = 0
         bad = None
+        # the result field, with the branches of nested pure helpers expanded
+        from ..events import expand_merges
+        xalts = []
+        for (pc, v) in alts:
+            res = dict(v[2]).get("result") if v[0] == "nt" else None
+            if res is None:
+                xalts.append((pc, None))
+            else:
+                xalts.extend(expand_merges(interp, res, pc))
         try:
             for n in (1, 2, 3, 4):
                 for r in range(0, 3):
@@ -257,11 +268,10 @@ def run(ctx):
                         for pruned in (False, True):
                             env = {"n": n, "moods": list(moods), "pruned": pruned}
                             results = set()
-                            for (pc, v) in alts:
+                            for (pc, v) in xalts:
                                 if all(bool(eval_cond(c[0], env)) == c[1] for c in pc
                                        if c[0] != ("cfg", "blur_usage")):
-                                    res = dict(v[2]).get("result") if v[0] == "nt" else None
-                                    results.add(res)
+                                    results.add(v)
                             combos += 1
                             want = ("const", expected(kind, n, moods, pruned))
                             if results != {want} and bad is None:
@@ -339,8 +349,23 @@ def _times(ctx, fi, alts):
         return t[0] == "sub" and t[2] == ("const", 1) and t[1][0] == "call" and \
             t[1][1] == "sorted" and added_list(t[1])
 
-    bad = None
+    from ..events import expand_merges
+    interp = ctx.model.interp
+    flat_alts = []
     for (pc, v) in alts:
+        if v[0] != "nt":
+            flat_alts.append((pc, v))
+            continue
+        st0 = dict(v[2]).get("started")
+        if st0 is not None:
+            for (pc2, st2) in expand_merges(interp, st0, pc):
+                d2 = dict(v[2])
+                d2["started"] = st2
+                flat_alts.append((pc2, ("nt", v[1], tuple(d2.items()))))
+        else:
+            flat_alts.append((pc, v))
+    bad = None
+    for (pc, v) in flat_alts:
         if v[0] != "nt":
             bad = "classifier does not return a record"
             break
@@ -430,6 +455,10 @@ def _sum_shape(v):
                 t[2][0][0] == "comp" and not t[2][0][4]:
             c = t[2][0]
             return c[2], strip_wrappers(c[3])
+        # total = 0; for x in xs: total += f(x)
+        if t is not None and t[0] == "accum" and t[1] == "+" and t[2] == ("const", 0) \
+                and t[4] is not None:
+            return t[3], strip_wrappers(t[4])
         return None
     s1 = sum_of(v)
     if not s1:
